@@ -37,6 +37,12 @@ def _child_body(world, index, tier, seed, replay, want_decoded):
     random.seed(run_seed)
     ch = Chooser(seed=run_seed) if replay is None else Chooser(replay=replay)
     gc.disable()
+    # inside the run the wall clock is the simulated clock too (a change under test may consult time.time(),
+    # time.monotonic() or file modification times; they must agree with each other and replay exactly)
+    from . import sched as _sched
+    _rt, _rm = time.time, time.monotonic
+    time.time = lambda: _sched.CURRENT.time() if _sched.CURRENT is not None else _rt()
+    time.monotonic = lambda: (_sched.CURRENT.time() - 1.6e9) if _sched.CURRENT is not None else _rm()
     res = world.run(ch, index, tier)
     from . import simfs
     if simfs.FS is not None and simfs.FS.hook_errors:
